@@ -1,7 +1,7 @@
 """C08 — results commute with exact similarity transforms of the plane."""
 from . import relprops, relrun
 LEVEL = 'proof'
-W = {'rect': 0.25, 'oct': 0.35, 'share': 0.1, 'lat': 0.1, 'gp': 0.2, 'abut': 0.2, 'punch': 0.08, 'boxes': 0.08}
+W = {'rect': 0.25, 'oct': 0.35, 'share': 0.1, 'lat': 0.1, 'gp': 0.2, 'abut': 0.2, 'punch': 0.08, 'boxes': 0.08, 'frameslab': 0.15}
 
 
 def run(rep, tier, seed):
